@@ -341,4 +341,10 @@ MUTANTS = [
     M("c09.8-rgrant-weak", "C09", "C09.8", AXF, "self.comb += self.rmw_rgrant.eq(~r_buffer_queue & (r_buffer_level == 0))", "self.comb += self.rmw_rgrant.eq(~r_buffer_queue)"),
     B("c09.8-twin-renamed-grant", "C09", AXF, "self.rmw_wgrant", "self.rmw_write_idle", count=9),
     B("c08.1-twin-connects", "C08", ADF, "            self.submodules += stream.Pipeline(port_to.rdata, rdata_cdc, port_from.rdata)", "            self.comb += [port_to.rdata.connect(rdata_cdc.sink), rdata_cdc.source.connect(port_from.rdata)]"),
+    M("c20.4-ca-unmasked", "C20", "C20.4", UTF, "self.comb += ca_bs.i.eq(Cat(*ca_bit_hist) & ca_mask),", "self.comb += ca_bs.i.eq(Cat(*ca_bit_hist)),"),
+    M("c17.7-wrapper-cl", "C17", "C17.7", "litedram/phy/gensdrphy.py", "full_rate_phy = GENSDRPHY(pads, 2*sys_clk_freq, cl)", "full_rate_phy = GENSDRPHY(pads, 2*sys_clk_freq)"),
+    M("c06.1-narrow-col-wire", "C06", "C06.1", BMF, "cmd.a.eq((auto_precharge << 10) | slicer.col(cmd_buffer.source.addr))", "cmd.a.eq((auto_precharge << 10) | cmd_col)",
+      more=[{"file": BMF, "old": "        # Row tracking ---", "new": "        cmd_col = Signal(settings.geom.colbits)\n        self.comb += cmd_col.eq(slicer.col(cmd_buffer.source.addr))\n        # Row tracking ---"}]),
+    B("c06.1-twin-wide-col-wire", "C06", BMF, "cmd.a.eq((auto_precharge << 10) | slicer.col(cmd_buffer.source.addr))", "cmd.a.eq((auto_precharge << 10) | cmd_col)",
+      more=[{"file": BMF, "old": "        # Row tracking ---", "new": "        cmd_col = Signal(settings.geom.colbits + 1)\n        self.comb += cmd_col.eq(slicer.col(cmd_buffer.source.addr))\n        # Row tracking ---"}]),
 ]
